@@ -1098,12 +1098,17 @@ def c01_key(rep, W, rule="C01.KEY"):
     for b_, o_ in ((rb, vg), (rb2, vg2)):
         if not o_:
             continue
-        hit = False
-        for site, term in exits(W, b_):
-            mm = m(pat.adt("Result", "Ok", ("0", V("x"))), term)
+        hit, other = False, []
+        for site, rt, val, kind in exit_kinds(W, b_, lambda t: "x"):
+            if is_error_exit(rt):
+                continue
+            mm = m(pat.adt("Result", "Ok", ("0", V("x"))), rt)
             if mm is not None and mm["x"] == o_[0].term:
                 hit = True
-        rep.ob(rule, (short_fn(b_), "returns-looked-up-record"), hit, "the looked-up Version is returned unchanged (cloned)", where(b_))
+            elif mm is None or m(pat.adt("Option", "None", Ellipsis), mm["x"]) is None:
+                other.append(P.show(rt)[:100])
+        rep.ob(rule, (short_fn(b_), "returns-looked-up-record"), hit and not other,
+               "the looked-up Version is returned unchanged (cloned); the only other success value is None%s" % ("; also returns %s" % other[:2] if other else ""), where(b_))
 
 
 # --------------------------------------------------------------------------- "latest" writers, counter bookkeeping
@@ -1519,6 +1524,26 @@ def closure_result(W, closure_term, param_terms):
     return sub(ex[0][1])
 
 
+def option_map_of(g, pv, t, scrut):
+    """t is a local holding `scrut.map(f)` in canonical form (None when scrut is None, Some(payload) when it is Some,
+    however that was spelled): returns the Some payload term, else None."""
+    if t[0] != "phi" or len(t) != 4:
+        return None
+    sm = dict(t[3])
+    if set(sm) != {"None", "Some"}:
+        return None
+    atom = ("VARIANT", scrut)
+    for site in pv.defsites.get(t[1], []):
+        node = pv.node_at(site)
+        if site[1] == "T" or node["rv"]["k"] != "aggregate":
+            return None
+        want = "ok" if node["rv"]["variant"] == "Some" else "err"
+        vals = g.vals_at(site)
+        if not vals or any(v.get(atom) != frozenset([want]) for v in vals):
+            return None
+    return sm["Some"]
+
+
 def c10(rep, W, rule="C10"):
     body = W.op("add_snapshot")
     fn = short_fn(body)
@@ -1535,11 +1560,12 @@ def c10(rep, W, rule="C10"):
         return
     v = ("param", 3, ANY)
     # SNAP: Option::map(client.snapshot, |s| s.version_id)
+    csnap = ("field", client, "snapshot")
     snap_terms = [x for a in g.atoms for part in a[1:] if isinstance(part, tuple) for x in P.walk(part)
-                  if x[0] == "call" and x[1] == "core::option::Option::<T>::map" and x[3][0] == ("field", client, "snapshot")]
+                  if x[0] == "phi" and len(x) == 4 and option_map_of(g, pv, x, csnap) is not None]
     snap_terms = list(set(snap_terms))
-    oks = len(snap_terms) == 1 and closure_result(W, snap_terms[0][3][1], [("param", 99, "s")]) == ("field", ("param", 99, "s"), "version_id")
-    rep.ob(rule, (fn, "snapshot-version"), oks, "the existing snapshot's version is client.snapshot.map(|s| s.version_id) (%d candidate term(s))" % len(snap_terms), where(body))
+    oks = len(snap_terms) == 1 and option_map_of(g, pv, snap_terms[0], csnap) == ("field", ("ok", csnap), "version_id")
+    rep.ob(rule, (fn, "snapshot-version"), oks, "the existing snapshot's version is None when the client has no snapshot and Some(snapshot.version_id) otherwise (%d candidate term(s))" % len(snap_terms), where(body))
     if not oks:
         return
     SNAP = snap_terms[0]
@@ -1750,21 +1776,23 @@ def c11(rep, W, rule="C11"):
            "snapshot bytes are fetched with get_snapshot_data(%s) on %s; must be the id in the client record read by the same transaction" % (P.show(ga[1]), P.show(ga[0])), where(body, gsd[0][0]))
     data_opt = ("ok", pv.def_term((gsd[0][0], "T")))
     nfound = 0
+    sa = ("VARIANT", ("field", client, "snapshot"))
+    da = ("VARIANT", data_opt)
     for site, rt, val, kind in exit_kinds(W, body, lambda t: "x"):
         if is_error_exit(rt):
             continue
         mo = m(pat.adt("Result", "Ok", ("0", V("x"))), rt)
         x = mo["x"] if mo else None
-        if x is not None and x[0] == "call" and x[1] == "core::option::Option::<T>::map":
+        ms = m(pat.adt("Option", "Some", ("0", V("p"))), x) if x is not None else None
+        if ms is not None:
             nfound += 1
-            res = closure_result(W, x[3][1], [("param", 98, "data")])
-            okp = x[3][0] == data_opt and res == pat_tuple(snapid, ("param", 98, "data"))
+            okp = ms["p"] == pat_tuple(snapid, ("ok", data_opt)) and val.get(sa) == frozenset(["ok"]) and val.get(da) == frozenset(["ok"])
             rep.ob(rule + ".READ", (fnb, "pair-from-same-record"), okp,
-                   "found-outcome is %s.map(|data| %s); must pair the record's own version id with the bytes fetched for it" % (P.show(x[3][0])[:80], P.show(res) if res else "?"),
+                   "found-outcome is Some(%s); must pair the record's own version id with the bytes fetched for it" % P.show(ms["p"])[:160],
                    where(body, line=exit_line(body, site)))
         elif x is not None and m(pat.adt("Option", "None", Ellipsis), x) is not None:
-            sa = ("VARIANT", ("field", client, "snapshot"))
-            rep.ob(rule + ".READ", (fnb, "none-iff-no-snapshot"), val.get(sa) == frozenset(["err"]), "None is returned only when the client record has no snapshot", where(body, line=exit_line(body, site)))
+            rep.ob(rule + ".READ", (fnb, "none-iff-no-snapshot"), val.get(sa) == frozenset(["err"]) or val.get(da) == frozenset(["err"]),
+                   "None is returned only when the client record has no snapshot (or the back end holds no bytes for it)", where(body, line=exit_line(body, site)))
         else:
             rep.fail(rule + ".READ", (fnb, "unknown-outcome"), "unrecognised non-error outcome %s" % P.show(rt)[:120], where(body, line=exit_line(body, site)))
     rep.floor(rule + ".READ", "get_snapshot found-outcomes", nfound, 1, where(body))
@@ -1786,39 +1814,46 @@ def c11(rep, W, rule="C11"):
                 cd = _col_of(mm["d"])
                 okrow = (cv, cd) == ("snapshot_version_id", "snapshot")
     rep.ob(rule + ".READ", (short_fn(sq), "row-tuple"), okrow, "row closure yields (snapshot_version_id, snapshot)", where(sq))
-    okchk = False
-    if len(chk) == 1:
-        cb = chk[0]
-        gc_ = W.gea(cb)
-        eqs = [a for a in gc_.atoms if a[0] == "EQ"]
-        # which upvar is compared: must be the method's version_id parameter
-        crea = None
-        for bb, t in sq.calls():
-            for a in pvs.arg_terms(bb):
-                if a[0] == "agg" and isinstance(a[1], tuple) and a[1] == ("closure", cb.deff):
-                    crea = a
-        for site, term in exits(W, cb):
-            mm = m(pat.adt("Result", "Ok", ("0", V("d"))), term)
-            if mm is not None and len(eqs) == 1 and crea is not None:
-                a = eqs[0]
-                sides = [a[1], a[2]]
-                up = [x for x in sides if x[0] == "upvar"]
-                tp = [x for x in sides if x[0] == "field" and x[2] == "0"]
-                cap = dict((int(n_), v_) for n_, v_ in crea[2])
-                okchk = (len(up) == 1 and len(tp) == 1 and m(("param", 2, ANY), cap.get(up[0][1], ("unknown",))) is not None
-                         and mm["d"] == ("field", tp[0][1], "1") and all_vals(gc_, site, ("is", a, True)))
+    def _req(side):
+        """the requested id (method parameter 2), bare or wrapped in Some(..)"""
+        return m(("param", 2, ANY), side) is not None or m(pat.adt("Option", "Some", ("0", ("param", 2, ANY))), side) is not None
+
+    # sqlite: every exit that hands out bytes does so under `stored id == requested id`, and the bytes are the other half of
+    # the very row whose id was compared (however the check is spelled: closure + transpose, let-else + bail, match)
+    gs = W.gea(sq)
+    eqs_s = [a for a in gs.atoms if a[0] == "EQ" and (_req(a[1]) or _req(a[2]))]
+    nbytes = 0
+    okchk = bool(eqs_s)
+    for site, rt, val, kind in exit_kinds(W, sq, lambda t: "x"):
+        if is_error_exit(rt):
+            continue
+        mo = m(pat.adt("Result", "Ok", ("0", pat.adt("Option", "Some", ("0", V("d"))))), rt)
+        if mo is None:
+            if m(pat.adt("Result", "Ok", ("0", pat.adt("Option", "None", Ellipsis))), rt) is None:
+                okchk = False      # an outcome the rule cannot read
+            continue
+        nbytes += 1
+        good = False
+        for a in eqs_s:
+            other = a[2] if _req(a[1]) else a[1]
+            if val.get(a) == frozenset([True]) and other[0] == "field" and other[2] == "0" and mo["d"] == ("field", other[1], "1"):
+                good = True
+        okchk = okchk and good
+    okchk = okchk and nbytes >= 1
     rep.ob(rule + ".READ", (short_fn(sq), "cross-check"), okchk,
            "bytes are returned only when the stored snapshot_version_id equals the requested id (error otherwise)", where(sq))
     im = W.impl_method("inmemory", "get_snapshot_data")
     gi = W.gea(im)
-    eqs = [a for a in gi.atoms if a[0] == "EQ"]
-    okim = False
-    for site, term in exits(W, im):
-        if is_error_exit(term):
+    eqs = [a for a in gi.atoms if a[0] == "EQ" and (_req(a[1]) or _req(a[2]))]
+    okim = bool(eqs)
+    nim = 0
+    for site, rt, val, kind in exit_kinds(W, im, lambda t: "x"):
+        if is_error_exit(rt):
             continue
-        okim = len(eqs) == 1 and all_vals(gi, site, ("is", eqs[0], True)) and any(
-            m(pat.adt("Option", "Some", ("0", ("param", 2, ANY))), x) is not None for x in (eqs[0][1], eqs[0][2]))
-    rep.ob(rule + ".READ", (short_fn(im), "cross-check"), okim, "in-memory: data is returned only when Some(requested id) equals the stored snapshot version", where(im))
+        nim += 1
+        okim = okim and any(val.get(a) == frozenset([True]) for a in eqs)
+    okim = okim and nim >= 1
+    rep.ob(rule + ".READ", (short_fn(im), "cross-check"), okim, "in-memory: data is returned only when the requested id equals the stored snapshot version", where(im))
     # ---- META: get_client column <-> field agreement
     gc = W.impl_method("sqlite", "get_client")
     selc = [i for i in inst if i.owner.key == gc.key and i.stmt and i.stmt["verb"] == "SELECT"]
@@ -2000,12 +2035,17 @@ def c12_max(rep, W, rule="C12.MAX"):
         mm = m(pat.adt("Result", "Ok", ("0", pat.tup(ANY, V("u")))), rt)
         u = mm["u"] if mm else None
         ln = exit_line(body, site)
-        if u is None or not (u[0] == "call" and u[1] == "core::cmp::max" and len(u[3]) == 2):
+        has = val.get(snap_atom)
+        high = pat.adt("SnapshotUrgency", "High")
+        is_max = u is not None and u[0] == "call" and u[1] in ("core::cmp::max", "core::cmp::Ord::max") and len(u[3]) == 2
+        if has == frozenset(["err"]) and u is not None and m(high, u) is not None:
+            # max(High, High) written as High
+            rep.ob(rule, (fn, "no-snapshot-is-high"), True, "without a stored snapshot the urgency is High", where(body, line=ln))
+            continue
+        if not is_max:
             rep.fail(rule, (fn, "max"), "urgency of an accepted version is %s; must be max(time urgency, version urgency)" % (P.show(u) if u else "?"), where(body, line=ln))
             continue
-        has = val.get(snap_atom)
         a0, a1 = u[3]
-        high = pat.adt("SnapshotUrgency", "High")
         if has == frozenset(["err"]):
             rep.ob(rule, (fn, "no-snapshot-is-high"), m(high, a0) is not None and m(high, a1) is not None,
                    "without a stored snapshot both urgencies are High (got %s, %s)" % (P.show(a0), P.show(a1)), where(body, line=ln))
